@@ -328,7 +328,7 @@ def build():
         interp.ctx.ghost["ORDERED"] = False
 
     p.add(Contract(
-        PAR, "Parallel._retrieve", variant="unordered", props=["C16", "C01"], ghost=GHU, setup=setup_u, generator=True,
+        PAR, "Parallel._retrieve", variant="unordered", props=["C16", "C01", "C04"], ghost=GHU, setup=setup_u, generator=True,
         params=dict(self=parallel(return_ordered=False)),
         requires=["jobs_fresh(self)", "lock_depth() == 0", "implies(ERRQ, self._aborting)"],
         ensures={"lock_released": "lock_depth() == 0", "queued_jobs_still_undelivered": "jobs_fresh(self)", "a_queued_failure_is_raised_not_dropped": "not ERRQ"},
